@@ -1,6 +1,7 @@
 import RjModel.Generated.Session
 import RjModel.Model.Frame
 import RjModel.Generated.Constants
+import RjModel.Generated.LinkSocket
 /-! # C10 — the link rejects forged, altered, replayed or reordered frames -/
 namespace Rj.C10
 open Rj
@@ -123,5 +124,11 @@ the session" in `C10_prefix`/`C10_nonce_unique`: a recorded session cannot be re
 connection under the same key, and the two links of one boss — whose counters start at the same values —
 never share a key. -/
 theorem C10_session_features : Generated.sessionFeatures = ⟨true, true, true, true⟩ := by decide
+
+/-- **The receiving end never gives up on a frame because of a silence**: no read time-out, no non-blocking mode on any
+socket in the source (re-extracted on every run).  The rejection theorems treat the byte stream as "the next byte arrives or
+the stream ends"; a receiver that abandons a frame after a silence and resynchronises on whatever comes next would hand an
+attacker who can stall the link a way to drop frames unnoticed. -/
+theorem C10_link_socket_plain : Generated.linkSocketPlain = true := by decide
 
 end Rj.C10
